@@ -118,7 +118,7 @@ def op_vr(self, a, targets):
             r = copy.deepcopy(t)
         elif kind == "fibercopy":
             f = src.root.copy()
-            r = Tensor.fromFiber(t.getRankIds(), f, shape=None)
+            r = Tensor.fromFiber(copy.deepcopy(t.getRankIds()), f, shape=None)
         elif kind in ("fadd", "fmul"):
             # elementwise + / * of two leaf fibers (or fiber and scalar); the result is a free fiber
             pre = dec_point(a["prefix"])
@@ -339,8 +339,12 @@ def op_ro(self, a, targets):
                 style = a.get("style", "tree")
                 if style != "tree" and any(not _flat_ok(x) for x in sl.shape):
                     raise Skip("shape")
-                im1 = TensorImage(t, style=style).im
-                im2 = TensorImage(t, style=style).im
+                hl = {}
+                if a.get("hl"):
+                    hl = {w: [dec_point(p) for p in pts] for w, pts in a["hl"].items()}
+                    self.probe("rendered_with_highlights")
+                im1 = TensorImage(t, style=style, highlights={w: list(p) for w, p in hl.items()}).im
+                im2 = TensorImage(t, style=style, highlights={w: list(p) for w, p in hl.items()}).im
                 self.probe("rendered")
                 if im1.size != im2.size or im1.tobytes() != im2.tobytes():
                     self.V("C10", "C10.render-twice", "ro_render",
@@ -502,8 +506,18 @@ def gen_render(self, g):
     cands = [s for s, sl in self.slots.items() if not sl.free]
     if not cands:
         return None
-    return ["op", "ro", {"slot": g.choice(cands), "kind": "render", "prefix": [],
-                         "style": g.choice(["tree", "uncompressed", "tree+uncompressed"])}]
+    s = g.choice(cands)
+    sl = self.slots[s]
+    a = {"slot": s, "kind": "render", "prefix": [],
+         "style": g.choice(["tree", "uncompressed", "tree+uncompressed"])}
+    if g.random() < 0.6 and sl.depth >= 1 and all(isinstance(x, int) for x in sl.shape):
+        # highlights: full points and points with fewer coordinates than the tensor has ranks
+        pts = []
+        for _ in range(g.randint(1, 2)):
+            n = g.randint(1, sl.depth)
+            pts.append(enc_point(self.rand_path(g, sl, n)))
+        a["hl"] = {g.choice(["PE", "PE0"]): pts}
+    return ["op", "ro", a]
 
 
 def install(cls):
